@@ -270,10 +270,6 @@ def run_linear(case):
                         e = np.zeros(tsh[b] + (q, nc))
                         e[I + (q0, c0)] = 1.0
                         fun[b] = e
-                        axi = fkind(cont.fields[0]) == "FieldAxisymmetric"
-                        if axi:
-                            # absent blocks are not supported on the axisymmetric path: pass explicit zeros
-                            fun = [np.zeros(t + (q, nc)) if x is None else x for x, t in zip(fun, tsh)]
                         got = fem.IntegralForm(fun, cont, region.dV, **kw).assemble().toarray()[:, 0]
                         c.trans += 1
                         c.states += 1
@@ -287,8 +283,6 @@ def run_linear(case):
             full[0][2] = 0.0
         refs = [ref_vector(full[b], f, flags[b], w, off[b + 1] - off[b]) for b, f in enumerate(cont.fields)]
         for pattern in itertools.product((True, False), repeat=nf):
-            if fkind(cont.fields[0]) == "FieldAxisymmetric" and not all(pattern):
-                continue
             fun = [full[b] if pattern[b] else None for b in range(nf)]
             got = fem.IntegralForm(fun, cont, region.dV, **kw).assemble().toarray()[:, 0]
             c.trans += 1
@@ -338,7 +332,7 @@ def run_bilinear(case):
                 return tv[i] + tu[j] + (q, nc)
 
             def zeros_list():
-                return [np.zeros(shape_of(i, j)) if axi else None for (i, j) in blocks]
+                return [None for (i, j) in blocks]
 
             # unit integrands block by block
             for bi, (i, j) in enumerate(blocks):
@@ -379,11 +373,7 @@ def run_bilinear(case):
             patterns = list(itertools.product((True, False), repeat=len(blocks))) if len(blocks) <= 6 else (
                 [tuple(True for _ in blocks)] + [tuple(k != m for k in range(len(blocks))) for m in range(len(blocks))] + [tuple(k == m for k in range(len(blocks))) for m in range(len(blocks))])
             for pattern in patterns:
-                if axi and not all(pattern):
-                    # absent blocks on the axisymmetric path: only pure dual-field blocks accept None
-                    fun = [full[bi] if pattern[bi] else (None if (i > 0 and j > 0) else np.zeros(shape_of(i, j))) for bi, (i, j) in enumerate(blocks)]
-                else:
-                    fun = [full[bi] if pattern[bi] else None for bi in range(len(blocks))]
+                fun = [full[bi] if pattern[bi] else None for bi in range(len(blocks))]
                 got = fem.IntegralForm(fun, cont, region.dV, cont, **kw).assemble().toarray()
                 c.trans += 1
                 ref = np.zeros((N, N))
